@@ -182,10 +182,10 @@ func init() {
 			"encoded by the real writer onto a simnet link (6 segmentation laws incl. cut sets aimed at header offsets, 5 buffer capacities) followed by a drawn tail (none, cut header, oversize length, cut payload, garbage), decoded by the real reader in a concurrent task; " +
 			"non-trivial when a Read was cut inside a header/payload, frames coalesced, the tail was not empty or a write was refused. " +
 			"forward (bubble): two real runBidirectionalForward instances joined by a frame-carrying simnet link, two applications each with a writer task (0-6 chunks up to 70000 bytes, then half-close) and a reader task, laws/capacities drawn per link; " +
-			"the local connection given to each forwarder is drawn among half-close capable / Close only / plain ReadWriter + LocalConnCloser, and every application chunk is preceded by a drawn pause (0-700 ms) so that either direction may end first; non-trivial when both directions carried bytes. " +
+			"the local connection given to each forwarder is drawn among half-close capable / Close only / plain ReadWriter + LocalConnCloser, its Read either reports EOF separately or together with the last bytes, traffic counters are configured both/none/one, and every application chunk is preceded by a drawn pause (0-700 ms) so that either direction may end first; non-trivial when both directions carried bytes. " +
 			"stream (outside the bubble, loopback TCP): FrameStream A performs 0-6 writes (0,1,small,limit-1,limit,limit+1,2*limit,2*limit+1,200K,1M) and ends with CloseWrite/Close/nothing/write-after-close; the harness replays A's wire to FrameStream B in seeded chunks, " +
 			"inserting foreign-tunnel data/EOF/Close frames, own-tunnel frames of undefined and non-data types and empty data frames at drawn frame boundaries, in 1/4 of the runs cuts the wire (inside a header, right after a header, inside a payload, at a boundary), otherwise closes the connection after the last frame or (half of the runs that end with an EOF/Close frame) keeps it open; B reads with a drawn buffer policy (1 B - 128 KiB); " +
-			"in 1/3 of the runs one or two further writers (FrameStreams of other tunnels, raw WriteFrame callers) write on A's connection concurrently, interleaved at every instrumented yield/lock point by a seeded cooperative scheduler (their frames replace the injected ones); in 3/4 of the runs B first writes and/or CloseWrite/Close-s its own direction (checked on the wire) before it reads; the wire fault may also be a header announcing more than the limit; " +
+			"in 1/3 of the runs one or two further writers (FrameStreams of other tunnels, raw WriteFrame callers) write on A's connection concurrently, interleaved at every instrumented yield/lock point by a seeded cooperative scheduler (their frames replace the injected ones); in 3/4 of the runs B first writes and/or CloseWrite/Close-s its own direction (checked on the wire) before it reads; in half of the runs frames of another connection (1 B - 64 KiB) are decoded with ReadFrameFromReader between B's Reads and their payloads are re-checked at the end; the wire fault may also be a header announcing more than the limit; " +
 			"non-trivial when a write was split, a frame was injected, writers were concurrent, B had closed its write side, the read buffer was smaller than a frame or the wire was cut/corrupt. " +
 			"decoder (outside the bubble): arbitrary/mutated byte strings through the real decoder behind a seeded chunking reader with heap growth measured per call; non-trivial when the input was not a clean frame sequence. distinct = distinct schedule hash (bubble) or draw vector (pure) among the non-trivial runs.",
 		Real: []string{"crossnode.WriteFrameToWriter", "crossnode.ReadFrameFromReader", "crossnode.TunnelIDFromString/TunnelIDToString", "crossnode.FrameStream Read/Write/CloseWrite/Close over crossnode.Conn and *net.TCPConn (WriteFrame/ReadFrame)", "session.runBidirectionalForward + CountingReadWriter"},
@@ -574,28 +574,58 @@ func (s *c10simStream) Close() error      { s.closes++; return s.end(c10TClose) 
 
 // local connection shapes handed to runBidirectionalForward: not every local
 // connection can half-close (net.Pipe, stream wrappers), some are closed
-// through LocalConnCloser only.
-type c10rwc struct{ c *simnet.Conn }
+// through LocalConnCloser only; and readers differ in how they report the end
+// (io.Reader allows the last bytes to come together with io.EOF, as
+// decompressing/decrypting readers and http bodies do).
+var c10LocalKinds = []string{"halfcloser", "closer-only", "ext-closer"}
+var c10ReadStyles = []string{"plain", "data-with-eof"}
 
-func (x c10rwc) Read(p []byte) (int, error)  { return x.c.Read(p) }
+func c10StyledRead(cn *simnet.Conn, style int, p []byte) (int, error) {
+	n, err := cn.Read(p)
+	if style == 1 && err == nil && n > 0 && cn.PeerClosedWrite() && cn.Pending() == 0 {
+		return n, io.EOF
+	}
+	return n, err
+}
+
+type c10full struct {
+	c     *simnet.Conn
+	style int
+}
+
+func (x c10full) Read(p []byte) (int, error)  { return c10StyledRead(x.c, x.style, p) }
+func (x c10full) Write(p []byte) (int, error) { return x.c.Write(p) }
+func (x c10full) Close() error                { return x.c.Close() }
+func (x c10full) CloseWrite() error           { return x.c.CloseWrite() }
+
+type c10rwc struct {
+	c     *simnet.Conn
+	style int
+}
+
+func (x c10rwc) Read(p []byte) (int, error)  { return c10StyledRead(x.c, x.style, p) }
 func (x c10rwc) Write(p []byte) (int, error) { return x.c.Write(p) }
 func (x c10rwc) Close() error                { return x.c.Close() }
 
-type c10rw struct{ c *simnet.Conn }
+type c10rw struct {
+	c     *simnet.Conn
+	style int
+}
 
-func (x c10rw) Read(p []byte) (int, error)  { return x.c.Read(p) }
+func (x c10rw) Read(p []byte) (int, error)  { return c10StyledRead(x.c, x.style, p) }
 func (x c10rw) Write(p []byte) (int, error) { return x.c.Write(p) }
 
-var c10LocalKinds = []string{"halfcloser", "closer-only", "ext-closer"}
-
-func c10Local(kind int, cn *simnet.Conn) (io.ReadWriter, io.Closer) {
+func c10Local(kind, style int, cn *simnet.Conn) (io.ReadWriter, io.Closer) {
 	switch kind {
 	case 1:
-		return c10rwc{cn}, nil
+		return c10rwc{cn, style}, nil
 	case 2:
-		return c10rw{cn}, cn
+		return c10rw{cn, style}, cn
 	}
-	return cn, nil
+	if style == 0 {
+		return cn, nil
+	}
+	return c10full{cn, style}, nil
 }
 
 type c10app struct {
@@ -643,6 +673,9 @@ func c10RunForward(w *simrt.World) {
 	ch1, dl1, t1 := mk("app1")
 	ch2, dl2, t2 := mk("app2")
 	lk1, lk2 := c.Intn(len(c10LocalKinds), "n1.localkind"), c.Intn(len(c10LocalKinds), "n2.localkind")
+	rs1, rs2 := c.Intn(len(c10ReadStyles), "n1.readstyle"), c.Intn(len(c10ReadStyles), "n2.readstyle")
+	// traffic counters are optional in the forwarder's configuration: 0 both, 1 none, 2 upload only, 3 download only
+	cm1, cm2 := c.Intn(4, "n1.counters"), c.Intn(4, "n2.counters")
 	link := func(nameA, nameB string) simnet.LinkConfig {
 		cfg := simnet.LinkConfig{NameA: nameA, NameB: nameB}
 		laws := []simnet.Law{simnet.LawAll, simnet.LawMixed, simnet.LawMTU, simnet.LawSmall, simnet.LawOne}
@@ -663,9 +696,9 @@ func c10RunForward(w *simrt.World) {
 		return cfg
 	}
 	cfg1, cfgX, cfg2 := link("app1", "n1.local"), link("n1.remote", "n2.remote"), link("n2.local", "app2")
-	w.Sample(fmt.Sprintf("world=forward id=%s local conns %s/%s delays %v/%v app1 sends %d B in %d chunks, app2 sends %d B in %d chunks; links app1-n1 %s/%s cap%d, n1-n2 %s/%s cap%d, n2-app2 %s/%s cap%d", idClass, c10LocalKinds[lk1], c10LocalKinds[lk2], dl1, dl2, t1, len(ch1), t2, len(ch2),
+	w.Sample(fmt.Sprintf("world=forward id=%s local conns %s/%s readers %s/%s counters %d/%d delays %v/%v app1 sends %d B in %d chunks, app2 sends %d B in %d chunks; links app1-n1 %s/%s cap%d, n1-n2 %s/%s cap%d, n2-app2 %s/%s cap%d", idClass, c10LocalKinds[lk1], c10LocalKinds[lk2], c10ReadStyles[rs1], c10ReadStyles[rs2], cm1, cm2, dl1, dl2, t1, len(ch1), t2, len(ch2),
 		simnet.LawNames[cfg1.LawAB], simnet.LawNames[cfg1.LawBA], cfg1.Capacity, simnet.LawNames[cfgX.LawAB], simnet.LawNames[cfgX.LawBA], cfgX.Capacity, simnet.LawNames[cfg2.LawAB], simnet.LawNames[cfg2.LawBA], cfg2.Capacity))
-	w.State(fmt.Sprintf("forward/%v/%v/x=%s,%s,cap%d/local=%s,%s", t1 > 0, t2 > 0, simnet.LawNames[cfgX.LawAB], simnet.LawNames[cfgX.LawBA], cfgX.Capacity, c10LocalKinds[lk1], c10LocalKinds[lk2]))
+	w.State(fmt.Sprintf("forward/%v/%v/x=%s,%s,cap%d/local=%s,%s/read=%s,%s/counters=%d,%d", t1 > 0, t2 > 0, simnet.LawNames[cfgX.LawAB], simnet.LawNames[cfgX.LawBA], cfgX.Capacity, c10LocalKinds[lk1], c10LocalKinds[lk2], c10ReadStyles[rs1], c10ReadStyles[rs2], cm1, cm2))
 	w.Probe("world.forward")
 
 	a1, l1 := simnet.NewLink(w, cfg1)
@@ -676,17 +709,36 @@ func c10RunForward(w *simrt.World) {
 	s2 := &c10simStream{w: w, conn: x2, id: id}
 	var up1, down1, up2, down2 atomic.Int64
 	n1 := w.Spawn("node1", func() {
-		lc, closer := c10Local(lk1, l1)
-		session.RunBidirectionalForwardForVerif(&session.BidirectionalForwardConfig{TunnelID: own, LogPrefix: "n1", LocalConn: lc, LocalConnCloser: closer, RemoteConn: s1, BytesSentCounter: &up1, BytesReceivedCounter: &down1})
+		lc, closer := c10Local(lk1, rs1, l1)
+		cfg := &session.BidirectionalForwardConfig{TunnelID: own, LogPrefix: "n1", LocalConn: lc, LocalConnCloser: closer, RemoteConn: s1}
+		if cm1 == 0 || cm1 == 2 {
+			cfg.BytesSentCounter = &up1
+		}
+		if cm1 == 0 || cm1 == 3 {
+			cfg.BytesReceivedCounter = &down1
+		}
+		session.RunBidirectionalForwardForVerif(cfg)
 	})
 	n2 := w.Spawn("node2", func() {
-		lc, closer := c10Local(lk2, l2)
+		lc, closer := c10Local(lk2, rs2, l2)
 		cfg := &session.BidirectionalForwardConfig{TunnelID: own, LogPrefix: "n2", LocalConn: lc, LocalConnCloser: closer, RemoteConn: s2}
-		cfg.BytesSentCounter, cfg.BytesReceivedCounter = &up2, &down2
+		if cm2 == 0 || cm2 == 2 {
+			cfg.BytesSentCounter = &up2
+		}
+		if cm2 == 0 || cm2 == 3 {
+			cfg.BytesReceivedCounter = &down2
+		}
 		session.RunBidirectionalForwardForVerif(cfg)
 	})
 	apps := []*c10app{{name: "app1", conn: a1, chunks: ch1, delays: dl1}, {name: "app2", conn: a2, chunks: ch2, delays: dl2}}
 	kindOf := map[string]string{"app1": c10LocalKinds[lk1], "app2": c10LocalKinds[lk2]}
+	styleOf := map[string]string{"app1": "", "app2": ""}
+	if rs1 != 0 {
+		styleOf["app1"] = ":local-reader-" + c10ReadStyles[rs1]
+	}
+	if rs2 != 0 {
+		styleOf["app2"] = ":local-reader-" + c10ReadStyles[rs2]
+	}
 	var tasks []*simrt.Task
 	for _, ap := range apps {
 		ap := ap
@@ -752,7 +804,7 @@ func c10RunForward(w *simrt.World) {
 			if len(to.recv) < len(from.sent) && bytes.Equal(to.recv, from.sent[:len(to.recv)]) {
 				cls = "incomplete"
 			}
-			w.Violationf("C10:forward:data-"+cls, "%s: %s wrote %d bytes and half-closed, %s received %d bytes (first difference at %d), then %v", dir, from.name, len(from.sent), to.name, len(to.recv), firstDiff(to.recv, from.sent), to.rerr)
+			w.Violationf("C10:forward:data-"+cls+styleOf[from.name], "%s: %s wrote %d bytes and half-closed (its forwarder reads the local connection in %q style), %s received %d bytes (first difference at %d), then %v", dir, from.name, len(from.sent), strings.TrimPrefix(styleOf[from.name], ":local-reader-"), to.name, len(to.recv), firstDiff(to.recv, from.sent), to.rerr)
 			return false
 		}
 		if to.rerr != io.EOF {
@@ -764,8 +816,18 @@ func c10RunForward(w *simrt.World) {
 	if !check(apps[0], apps[1], "app1->app2") || !check(apps[1], apps[0], "app2->app1") {
 		return
 	}
-	if up1.Load() != int64(t1) || down2.Load() != int64(t1) || up2.Load() != int64(t2) || down1.Load() != int64(t2) {
-		w.Violationf("C10:forward:counters", "app1 sent %d, app2 sent %d; node1 counted up=%d down=%d, node2 counted up=%d down=%d", t1, t2, up1.Load(), down1.Load(), up2.Load(), down2.Load())
+	// a configured counter equals the bytes forwarded in its direction; an unconfigured one is never touched
+	cnt := func(mode int, up, down *atomic.Int64, wantUp, wantDown int) bool {
+		if mode == 1 || mode == 3 {
+			wantUp = 0
+		}
+		if mode == 1 || mode == 2 {
+			wantDown = 0
+		}
+		return up.Load() == int64(wantUp) && down.Load() == int64(wantDown)
+	}
+	if !cnt(cm1, &up1, &down1, t1, t2) || !cnt(cm2, &up2, &down2, t2, t1) {
+		w.Violationf("C10:forward:counters", "app1 sent %d, app2 sent %d; node1 (counter mode %d) counted up=%d down=%d, node2 (mode %d) counted up=%d down=%d", t1, t2, cm1, up1.Load(), down1.Load(), cm2, up2.Load(), down2.Load())
 	}
 	if s1.closes == 0 || s2.closes == 0 {
 		w.Probe("forward.remote-close-not-called")
@@ -1197,6 +1259,20 @@ func c10PureStream(c *simrt.Choice, res *simrt.Result) {
 	}
 	inject := c.Chance(2, 3, "inject")
 	cut := c.Chance(1, 4, "cut")
+	// other decoding activity in the process between B's reads (another
+	// connection's reader, the listener reading a first frame): what B still
+	// holds of a partially consumed frame, and what a decoder returned earlier,
+	// must not change
+	interleave := c.Chance(1, 2, "b.interleave")
+	var otherWires [][]byte
+	var otherPayloads [][]byte
+	if interleave {
+		for i, k := 0, 1+c.Intn(3, "b.interleave.n"); i < k; i++ {
+			pl := c10Pattern([]int{1, 300, 4096, c10Limit, 20000}[c.Intn(5, "b.interleave.size")], byte(0xC7+i))
+			otherPayloads = append(otherPayloads, pl)
+			otherWires = append(otherWires, c10RefEncode(nil, c10frame{id: c10RefID("other-connection"), typ: []byte{c10TData, 0x02, 0x10}[c.Intn(3, "b.interleave.type")], data: pl}))
+		}
+	}
 	// B's own write side: a reader that has already sent its request and
 	// half-closed (or closed) must report what arrives exactly like one that has not
 	bOps := []string{"none", "write+closewrite", "closewrite", "write+close"}[c.Intn(4, "b.ops")]
@@ -1662,7 +1738,7 @@ func c10PureStream(c *simrt.Choice, res *simrt.Result) {
 	for _, o := range others {
 		concDesc = append(concDesc, fmt.Sprintf("%s%v/%s", o.kind, o.sizes, o.ending))
 	}
-	res.Sample = fmt.Sprintf("world=stream concurrent=%v reader-ops=%s ids=%s(shared16=%v) writes=%v ending=%s frames=%d inject=%v cut=%s@%d/%d readbuf=%v feedchunks=%v", concDesc, bOps, idClass, shared, sizes, ending, len(aFrames), injDesc, cutClass, cutAt, len(feed), bufSizes, chunkPlan)
+	res.Sample = fmt.Sprintf("world=stream concurrent=%v reader-ops=%s other-decoder=%v ids=%s(shared16=%v) writes=%v ending=%s frames=%d inject=%v cut=%s@%d/%d readbuf=%v feedchunks=%v", concDesc, bOps, interleave, idClass, shared, sizes, ending, len(aFrames), injDesc, cutClass, cutAt, len(feed), bufSizes, chunkPlan)
 	res.States[fmt.Sprintf("stream/%s/%s/%s/inj%v/buf%d/%s/conc%d/%s", szClass, ending, cutClass, len(injs) > 0, bufClass, idClass, len(others), bOps)]++
 	if cutClass != "none" {
 		res.Faults["stream.wire-cut."+cutClass]++
@@ -1781,6 +1857,8 @@ func c10PureStream(c *simrt.Choice, res *simrt.Result) {
 	}()
 	var got []byte
 	var rerr error
+	var retained [][]byte // payloads the decoder returned for the other connection, checked again at the end
+	var retainedOf []int
 	maxReads := len(feed) + len(feedFrames) + 64
 	for r := 0; ; r++ {
 		buf := make([]byte, bufSizes[r%len(bufSizes)])
@@ -1798,6 +1876,16 @@ func c10PureStream(c *simrt.Choice, res *simrt.Result) {
 			c10Viol(res, "C10:stream:zero-read", "Read(len %d) returned 0, nil", len(buf))
 			break
 		}
+		if interleave && r < 200 {
+			k := r % len(otherWires)
+			_, _, data, err := crossnode.ReadFrameFromReader(bytes.NewReader(otherWires[k]))
+			if err != nil || !bytes.Equal(data, otherPayloads[k]) {
+				c10Viol(res, "C10:decoder:frame-mismatch:interleaved", "decoding a %d byte frame of another connection between B's reads: err=%v, payload len %d, first difference at %d", len(otherPayloads[k]), err, len(data), firstDiff(data, otherPayloads[k]))
+				break
+			}
+			retained = append(retained, data)
+			retainedOf = append(retainedOf, k)
+		}
 		if r > maxReads {
 			c10Viol(res, "C10:stream:read-never-ends", "more than %d successful Reads for a %d byte wire", maxReads, len(feed))
 			break
@@ -1808,6 +1896,15 @@ func c10PureStream(c *simrt.Choice, res *simrt.Result) {
 		if n, err := fsB.Read(make([]byte, 16)); n != 0 || err != io.EOF {
 			c10Viol(res, "C10:stream:eof-not-sticky", "Read after end-of-stream returned n=%d err=%v", n, err)
 		}
+	}
+	for i, d := range retained {
+		if !bytes.Equal(d, otherPayloads[retainedOf[i]]) {
+			c10Viol(res, "C10:decoder:returned-payload-changed-later", "a %d byte payload returned by ReadFrameFromReader for another connection was intact when returned and differs (first at %d) after B's stream decoded further frames", len(d), firstDiff(d, otherPayloads[retainedOf[i]]))
+			break
+		}
+	}
+	if interleave {
+		res.Probes["stream.other-decoder-between-reads"]++
 	}
 	connB.Close() // unblocks the feeder if B stopped early
 	select {
@@ -1856,7 +1953,11 @@ func c10PureStream(c *simrt.Choice, res *simrt.Result) {
 			}
 			c10Viol(res, "C10:stream:incomplete:"+fault+":"+szClass, "B received only %d of the %d bytes that reached it in complete frames, then %v (writes=%v readbuf=%v cut=%s)", len(got), len(want), rerr, sizes, bufSizes, cutClass)
 		default:
-			c10Viol(res, "C10:stream:data-mismatch:"+szClass, "B received %d bytes, expected %d, first difference at %d (writes=%v readbuf=%v inject=%v)", len(got), len(want), firstDiff(got, want), sizes, bufSizes, injDesc)
+			il := ""
+			if interleave {
+				il = ":other-decoder-active" // frames of another connection were decoded between B's reads
+			}
+			c10Viol(res, "C10:stream:data-mismatch:"+szClass+il, "B received %d bytes, expected %d, first difference at %d (writes=%v readbuf=%v inject=%v other-decoder-between-reads=%v)", len(got), len(want), firstDiff(got, want), sizes, bufSizes, injDesc, interleave)
 		}
 		return
 	}
